@@ -20,7 +20,7 @@
                          whose processing order differs, Go >= 1.24 panics there); otherwise d[j] = x[j]^y[j];
      for i, val = range s   len and the descriptor of s evaluated once, val read from memory at each iteration;
      `for` loops         run on explicit fuel (OFuel).  *)
-From Coq Require Import List Arith NArith ZArith Bool String.
+From Coq Require Import String List Arith NArith ZArith Bool.
 From GoMC Require Import Base.Bytes Base.GoInt Model.C10 Model.C10_syntax Gen.C10gen.
 Import ListNotations.
 Local Open Scope Z_scope.
@@ -106,7 +106,7 @@ Definition rd1 (s : st) (x : slc) (k : Z) : option N :=
 Definition bound {A} (b : option (A * (env -> Z))) (s : st) (dflt : Z) : Z :=
   match b with Some (_, e) => e (look s) | None => dflt end.
 (* v[lo:hi]: 0 <= lo <= hi <= cap *)
-Definition eval_sexp (s : st) (e : sexp (env -> Z)) : option slc :=
+Definition eval_sexp {T} (s : st) (e : sexp T (env -> Z)) : option slc :=
   match e with
   | SE v lo hi =>
       let x := get s v in
@@ -115,7 +115,7 @@ Definition eval_sexp (s : st) (e : sexp (env -> Z)) : option slc :=
       if (0 <=? l) && (l <=? h) && (h <=? sl_cap x)
       then Some (mkslc (sl_sp x) (sl_off x + l) (h - l) (sl_cap x - l)) else None
   end.
-Fixpoint eval_bexp (s : st) (b : bexp (env -> Z)) : option N :=
+Fixpoint eval_bexp {T} (s : st) (b : bexp T (env -> Z)) : option N :=
   match b with
   | BVal => Some (l_val (x_loc s))
   | BIdx v _ e => rd1 s (get s v) (e (look s))
@@ -196,9 +196,9 @@ Section Exec.
 Variable E : list N -> list N.     (* the block function *)
 Variable strict : bool.            (* the cipher.Block refuses inexactly overlapping blocks (crypto/aes) *)
 Variable fuel : nat.
-Variable call : string -> slc -> slc -> st -> outcome.
+Variable call : callee -> slc -> slc -> st -> outcome.
 
-Fixpoint exec (c : sem_stmt) (s : st) {struct c} : outcome :=
+Fixpoint exec (c : run_stmt) (s : st) {struct c} : outcome :=
   match c with
   | CIf _ b th el =>
       match b (look s) with
@@ -294,7 +294,7 @@ Fixpoint exec (c : sem_stmt) (s : st) {struct c} : outcome :=
       end
   end.
 
-Definition run_body (body : list sem_stmt) (s : st) : outcome := run_block exec body s.
+Definition run_body (body : list run_stmt) (s : st) : outcome := run_block exec body s.
 End Exec.
 
 (* a fresh activation with parameters dst, src *)
@@ -306,14 +306,22 @@ Definition activation (run : st -> outcome) (d a : slc) (s : st) : outcome :=
   | o => o
   end.
 
-Definition no_call : string -> slc -> slc -> st -> outcome := fun _ _ _ _ => OStuck.
+Definition no_call : callee -> slc -> slc -> st -> outcome := fun _ _ _ _ => OStuck.
+(* the translated bodies with the rendered text forgotten (computed once, here; the c10_* definitions of
+   Gen/C10gen.v stay folded).  Proofs/C10_skel.v: XKS = map notext C10gen.XORKeyStream by reflexivity. *)
+Definition XKS : list run_stmt :=
+  Eval cbv beta iota delta [map notext notext_sexp notext_bexp notext_bound C10gen.XORKeyStream]
+  in map notext C10gen.XORKeyStream.
+Definition SLOW : list run_stmt :=
+  Eval cbv beta iota delta [map notext notext_sexp notext_bexp notext_bound C10gen.xorKeyStream]
+  in map notext C10gen.xorKeyStream.
 (* cf.xorKeyStream(d, a) and cf.XORKeyStream(d, a) as translated *)
 Definition interp_slow E strict fuel : slc -> slc -> st -> outcome :=
-  activation (run_body E strict fuel no_call C10gen.xorKeyStream).
-Definition interp_call E strict fuel (name : string) : slc -> slc -> st -> outcome :=
-  if String.eqb name "xorKeyStream" then interp_slow E strict fuel else fun _ _ _ => OStuck.
+  activation (run_body E strict fuel no_call SLOW).
+Definition interp_call E strict fuel (f : callee) : slc -> slc -> st -> outcome :=
+  match f with KxorKeyStream => interp_slow E strict fuel end.
 Definition interp_xks E strict fuel : slc -> slc -> st -> outcome :=
-  activation (run_body E strict fuel (interp_call E strict fuel) C10gen.XORKeyStream).
+  activation (run_body E strict fuel (interp_call E strict fuel) XKS).
 
 (* newCFB8(c, iv, de): cp := make([]byte, len(iv)*3) with the TRANSLATED length; copy(cp, iv) *)
 Definition interp_new (bsz : Z) (de : bool) (iv0 : list N) (m : Z -> N) : option st :=
